@@ -295,51 +295,69 @@ Definition delete_thread_nested (s : nat) (ds : list nat) : thread :=
   flat_map (fun d => locked (LDim d) MW [Acc (LocDimKeys d) true]) ds.
 
 (* ---- COARSE model ------------------------------------------------------------------------------------------------------ *)
+(* Clients of ONE series.  An ingest g goes through: called (WStart) -> its segment write section, one atomic step
+   (WApply) -> returned (WEnd).  A render r: called (RStart) -> its segment read section, one atomic step that
+   returns the ingests applied so far (RRead) -> returned (REnd).  A schedule is ANY list of these events; an event
+   whose client is not in the right phase is ignored (so every list is a schedule and the phase order of each
+   client is respected by construction).  Ghost fields record what had returned when a render was called and
+   what had been called when it returned. *)
 Inductive cevent :=
-| WStart (g : nat) | WApply (g : nat) | WEnd (g : nat)     (* ingest g: called / segment write section / returned *)
-| RStart (r : nat) | RRead (r : nat) | REnd (r : nat).      (* render r: called / segment read section / returned *)
+| WStart (g : nat) | WApply (g : nat) | WEnd (g : nat)
+| RStart (r : nat) | RRead (r : nat) | REnd (r : nat).
 
-Definition writer_prog (gs : list nat) : list cevent := flat_map (fun g => [WStart g; WApply g; WEnd g]) gs.
-Definition reader_prog (rs : list nat) : list cevent := flat_map (fun r => [RStart r; RRead r; REnd r]) rs.
+Record cstate := {
+  c_started : list nat;                  (* ingests called *)
+  c_applied : list nat;                  (* ingests whose write section has run, oldest first = the series' state *)
+  c_ended : list nat;                    (* ingests acknowledged *)
+  r_started : list (nat * list nat);     (* render -> ingests acknowledged when it was called (ghost) *)
+  r_read : list (nat * list nat);        (* render -> what its read section saw = what it returns *)
+  r_ended : list (nat * list nat)        (* render -> ingests called when it returned (ghost) *)
+}.
 
-(* tr is an interleaving of the programs ps (program order of every client kept) *)
-Inductive interleaving : list (list cevent) -> list cevent -> Prop :=
-| il_done : forall ps, Forall (fun p => p = []) ps -> interleaving ps []
-| il_step : forall ps i e p tr,
-    nth_error ps i = Some (e :: p) -> interleaving (set_at i p ps) tr -> interleaving ps (e :: tr).
+Definition c_init : cstate :=
+  {| c_started := []; c_applied := []; c_ended := []; r_started := []; r_read := []; r_ended := [] |}.
 
-(* the ingests applied so far, oldest first; what every render saw *)
-Fixpoint applied (tr : list cevent) : list nat :=
-  match tr with
-  | [] => []
-  | WApply g :: tr' => g :: applied tr'
-  | _ :: tr' => applied tr'
+Definition memn (x : nat) (l : list nat) : bool := existsb (Nat.eqb x) l.
+Definition memk (x : nat) (l : list (nat * list nat)) : bool := existsb (fun p => Nat.eqb x (fst p)) l.
+
+Definition c_step (s : cstate) (e : cevent) : cstate :=
+  match e with
+  | WStart g =>
+      if memn g (c_started s) then s
+      else {| c_started := g :: c_started s; c_applied := c_applied s; c_ended := c_ended s;
+              r_started := r_started s; r_read := r_read s; r_ended := r_ended s |}
+  | WApply g =>
+      if memn g (c_started s) && negb (memn g (c_applied s))
+      then {| c_started := c_started s; c_applied := c_applied s ++ [g]; c_ended := c_ended s;
+              r_started := r_started s; r_read := r_read s; r_ended := r_ended s |}
+      else s
+  | WEnd g =>
+      if memn g (c_applied s) && negb (memn g (c_ended s))
+      then {| c_started := c_started s; c_applied := c_applied s; c_ended := g :: c_ended s;
+              r_started := r_started s; r_read := r_read s; r_ended := r_ended s |}
+      else s
+  | RStart r =>
+      if memk r (r_started s) then s
+      else {| c_started := c_started s; c_applied := c_applied s; c_ended := c_ended s;
+              r_started := (r, c_ended s) :: r_started s; r_read := r_read s; r_ended := r_ended s |}
+  | RRead r =>
+      if memk r (r_started s) && negb (memk r (r_read s))
+      then {| c_started := c_started s; c_applied := c_applied s; c_ended := c_ended s;
+              r_started := r_started s; r_read := (r, c_applied s) :: r_read s; r_ended := r_ended s |}
+      else s
+  | REnd r =>
+      if memk r (r_read s) && negb (memk r (r_ended s))
+      then {| c_started := c_started s; c_applied := c_applied s; c_ended := c_ended s;
+              r_started := r_started s; r_read := r_read s; r_ended := (r, c_started s) :: r_ended s |}
+      else s
   end.
 
-(* what render r returns in trace tr: the ingests applied before its read section *)
-Fixpoint seen_by (r : nat) (before : list nat) (tr : list cevent) : option (list nat) :=
-  match tr with
-  | [] => None
-  | RRead r' :: tr' => if Nat.eqb r r' then Some (rev before) else seen_by r before tr'
-  | WApply g :: tr' => seen_by r (g :: before) tr'
-  | _ :: tr' => seen_by r before tr'
-  end.
+Definition c_run (evs : list cevent) : cstate := fold_left c_step evs c_init.
 
-Definition cevent_eqb (a b : cevent) : bool :=
-  match a, b with
-  | WStart x, WStart y | WApply x, WApply y | WEnd x, WEnd y
-  | RStart x, RStart y | RRead x, RRead y | REnd x, REnd y => Nat.eqb x y
-  | _, _ => false
-  end.
+(* the series' content as a sum: every applied ingest contributes its weight (its profile; merge is addition, C09) *)
+Definition sumw (w : nat -> N) (l : list nat) : N := fold_right (fun g n => (w g + n)%N) 0%N l.
 
-(* position of the first occurrence *)
-Fixpoint index_of (e : cevent) (tr : list cevent) : option nat :=
-  match tr with
-  | [] => None
-  | x :: tr' => if cevent_eqb e x then Some 0 else option_map S (index_of e tr')
-  end.
-Definition before (a b : cevent) (tr : list cevent) : Prop :=
-  match index_of a tr, index_of b tr with
-  | Some i, Some j => i < j
-  | _, _ => False
-  end.
+(* the real Storage.Get before fba57a2 read the timeline and the tree in two read sections: two consecutive reads
+   of one client, which may see different states *)
+Definition two_sections_example : list cevent :=
+  [WStart 1; RStart 10; RStart 11; RRead 10; WApply 1; WEnd 1; RRead 11; REnd 10; REnd 11].
